@@ -151,6 +151,10 @@ fn shaped_env(rng: &mut StdRng) -> (&'static str, &'static str) {
         ("type A = opt opt opt opt opt opt opt opt opt opt opt opt nat;", "A"),
         ("type A = record { B }; type B = record { C }; type C = record { D }; type D = record { E }; type E = record { F }; type F = record { G }; type G = record { H }; type H = record { I }; type I = record { J }; type J = record { K }; type K = record { opt A; variant { p : A; q } };", "A"),
         ("type A = B; type B = C; type C = opt A;", "A"),
+        // a definition mentioned twice on different paths is not recursion (size estimate is per path)
+        ("type B = nat8; type A = variant { leaf : record { B; B }; node : record { A; A; A } };", "A"),
+        ("type C = int; type B = record { x : C; y : C }; type A = variant { dot : B; group : record { A; A } };", "A"),
+        ("type B = opt nat; type A = variant { node : record { A; A }; leaf : record { B; B; B } };", "vec A"),
     ];
     E[rng.gen_range(0..E.len())]
 }
